@@ -72,21 +72,23 @@ FULL STATEMENT (fourth clause of the property; `WFD` is the decode-side part of 
     theorem decode_admissible : WF S = true → WFD S = true → (recN S T n).dec ty bs = .ok v →
         admN S T n ty v = true ∧ ∃ b', (recN S T n).enc ty v = .ok b'
 
-It is FALSE in this generality (`Examples.overflowSchema` below): `decode` is lenient (integers past the end of
-the buffer read as 0), so the size re-computed by `encode` for a size / byte-size / size-of / size-ref
-member is not bounded by the input and may not fit the member's width. PROVED: the statement with the
-decidable hypothesis `fitN S T sup n ty v` -- the re-computed derived sizes inside `v` fit their members,
-and every struct object inside `v` is of a definition satisfying `sup`; at present `sup` must imply
-`StructDef.noUnion` (no member laid out before its discriminant). -/
+It is FALSE in this generality (`Examples.overflowSchema` below): `decode` is lenient (integers past the
+end of the buffer read as 0), so the size re-computed by `encode` for a struct-size / byte-size / size-of /
+size-ref member is not bounded by the input and may not fit the member's width. PROVED, for every byte
+string `bs` and every feature of the dialect (unions before their discriminant and factories included):
+the statement with the one decidable hypothesis `fitN S T (fun _ => true) n ty v` -- the derived size
+members re-computed from the decoded object fit their widths. (All such members of the shipped schemas are
+4 bytes wide: a violation needs a re-encoding of at least 4 GiB.) -/
 
 theorem decode_admissible_partial (hwf : WF S = true) (hwd : WFD S = true) {n : Nat} {ty : String} {bs : Bytes} {v : Val}
-    (hdec : (recN S T n).dec ty bs = .ok v) (hfit : fitN S T StructDef.noUnion n ty v = true) :
+    (hdec : (recN S T n).dec ty bs = .ok v) (hfit : fitN S T (fun _ => true) n ty v = true) :
     admN S T n ty v = true ∧ ∃ b', (recN S T n).enc ty v = .ok b' :=
-  (recN_ded T hwf hwd StructDef.noUnion (fun _ h => h) n).dec ty bs v hdec hfit
+  (recN_ded T hwf hwd (fun _ => true) n).dec ty bs v hdec hfit
 
-/-- whatever decodes re-encodes, and the re-encoding decodes to the same value -/
+/-- whatever decodes re-encodes, the re-encoding decodes to the same value and has the reported size
+    (that the second re-encoding equals the first is determinism of `encode`, a function) -/
 theorem ded_stable_partial (hwf : WF S = true) (hwd : WFD S = true) {ty : String} {bs : Bytes} {v : Val}
-    (hdec : decode S T ty bs = .ok v) (hfit : fitN S T StructDef.noUnion (defaultFuel S) ty v = true) :
+    (hdec : decode S T ty bs = .ok v) (hfit : fit S T ty v = true) :
     ∃ b', encode S T ty v = .ok b' ∧ decode S T ty b' = .ok v ∧ size S T ty v = .ok b'.length := by
   obtain ⟨hadm, b', hb'⟩ := decode_admissible_partial hwf hwd hdec hfit
   exact ⟨b', hb', decode_encode hwf hb' hadm, size_eq_length hwf hb' hadm⟩
@@ -207,6 +209,28 @@ example : hyps Generated.Symbol.schema "NamespaceRegistrationTransactionV1" (nsR
 /-- not admissible: both members of the union absent / an absent member holding a value -/
 example : adm Generated.Symbol.schema idT "NamespaceRegistrationTransactionV1" (nsReg 2) = false := by decide +kernel
 
+/-- the hypotheses of `ded_stable_partial` for a byte string: it decodes, and the derived sizes fit -/
+def dedHyps (S : Schema) (ty : String) (bs : Bytes) : Bool :=
+  match decode S idT ty bs with
+  | .ok v => fit S idT ty v
+  | .error _ => false
+
+def bytesOf (S : Schema) (ty : String) (v : Val) : Bytes := (encode S idT ty v).toOption.getD []
+
+/-- lenient reads: three bytes decode as a `ReceiptSource` (two 4-byte integers) -/
+example : dedHyps Generated.Symbol.schema "ReceiptSource" [1, 2, 3] = true := by decide +kernel
+/-- a namespace registration (union before its discriminant) read through the transaction factory, with the
+    size member overstating the buffer and trailing bytes appended -/
+example : dedHyps Generated.Symbol.schema "Transaction"
+    ((bytesOf Generated.Symbol.schema "NamespaceRegistrationTransactionV1" (nsReg 1)).set 0 200 ++ [9, 9]) = true := by
+  decide +kernel
+/-- an aggregate with a flipped byte inside an embedded transaction -/
+example : dedHyps Generated.Symbol.schema "AggregateCompleteTransactionV2"
+    ((bytesOf Generated.Symbol.schema "AggregateCompleteTransactionV2" aggregate).set 230 77) = true := by decide +kernel
+/-- NEM: an empty `parent_name` (size 0, not the absent marker) -/
+example : dedHyps Generated.Nem.schema "Transaction"
+    (bytesOf Generated.Nem.schema "NamespaceRegistrationTransactionV1" (nemNsReg (.bytes []))) = true := by decide +kernel
+
 /-- a well-formed schema for which `decode_admissible` fails without the `fitN` hypothesis: the empty buffer
     decodes (leniently) to an object of 301 bytes, whose size does not fit the one-byte size member -/
 def overflowSchema : Schema := [("X", .struct {
@@ -219,6 +243,25 @@ def decodesButOverflows (S : Schema) (ty : String) (bs : Bytes) : Bool :=
   | .error _ => false
 
 example : WF overflowSchema = true ∧ WFD overflowSchema = true ∧ decodesButOverflows overflowSchema "X" [] = true := by
+  decide +kernel
+
+/-- the same with the layout of the NEM transfer transaction scaled down to one-byte members: a message of
+    255 bytes is read (the envelope size read from the buffer is only tested for `!= 0`), and the envelope size
+    re-computed by `serialize`, 257, does not fit. With the shipped 4-byte members this needs a 4 GiB message.
+    (Both patterns replayed on code emitted by the real generator for these layouts: `OverflowError`.) -/
+def envelopeSchema : Schema := [
+  ("Msg", .struct { fields := [
+    { name := "message_type", kind := .int 1 false },
+    { name := "message_size", kind := .count 1 false "message" none },
+    { name := "message", kind := .barray "message_size" }] }),
+  ("Transfer", .struct { fields := [
+    { name := "amount", kind := .int 1 false },
+    { name := "message_envelope_size", kind := .sizeRef 1 false "message" 0 },
+    { name := "message", kind := .ref "Msg" none,
+      cond := some { field := "message_envelope_size", op := .ne, value := 0, viaSelf := false } }] })]
+
+example : WF envelopeSchema = true ∧ WFD envelopeSchema = true ∧
+    decodesButOverflows envelopeSchema "Transfer" ([7, 1, 1, 255] ++ zeros 255) = true := by
   decide +kernel
 
 end Examples
